@@ -73,9 +73,9 @@ theorem leaf_fits_local :
 
 /-! ### hydrogens placed by the superposition route of `add_hydrogens` (same selection loop) -/
 
-/-- run-time references at the three chain positions -/
+/-- run-time references at the three chain positions (`update_bonds` applies PEPTIDE only to residues that are neither first nor last; `set_termini` applies NTERM / CTERM to those) -/
 def posRefs (r : ResDef) : List ResDef :=
-  [[str "PEPTIDE"], [str "PEPTIDE", str "NTERM"], [str "PEPTIDE", str "CTERM"]].filterMap
+  [[str "PEPTIDE"], [str "NTERM"], [str "CTERM"]].filterMap
     (fun ps => P2P.Rigid.applyAll patches r ps)
 
 def hydrogens (r : ResDef) : List Str := r.names.filter (fun n => n.head? = some 'H')
